@@ -85,6 +85,8 @@ enum Ty {
     Bool,
     Bytes(BK),
     Fsb(usize),
+    /// interval with several signed components: 2 = IntervalDayTime (days, ms), 3 = IntervalMonthDayNano
+    Iv(u8),
     Null,
     Struct(Vec<Ty>),
     List(LK, Box<Ty>),
@@ -105,6 +107,8 @@ enum Val {
     Float(u64),
     Bool(bool),
     Bytes(Vec<u8>),
+    /// interval components, most significant first
+    Ints(Vec<i64>),
     Struct(Vec<Val>),
     /// list / fixed size list / map (map entries are `Struct([k, v])`)
     List(Vec<Val>),
@@ -114,7 +118,7 @@ enum Val {
 
 impl Ty {
     fn is_nested(&self) -> bool {
-        !matches!(self, Ty::Int { .. } | Ty::Float(_) | Ty::Bool | Ty::Bytes(_) | Ty::Fsb(_) | Ty::Null)
+        !matches!(self, Ty::Int { .. } | Ty::Float(_) | Ty::Bool | Ty::Bytes(_) | Ty::Fsb(_) | Ty::Iv(_) | Ty::Null)
     }
     fn has_union(&self) -> bool {
         match self {
@@ -133,6 +137,7 @@ impl Ty {
             Ty::Bool => "b".into(),
             Ty::Bytes(k) => k.name().into(),
             Ty::Fsb(_) => "fsb".into(),
+            Ty::Iv(k) => if *k == 2 { "ivdt" } else { "ivmdn" }.into(),
             Ty::Null => "null".into(),
             Ty::Struct(_) => "S".into(),
             Ty::List(k, _) => k.name().into(),
@@ -206,6 +211,7 @@ fn show_ty(t: &Ty) -> String {
         Ty::Bool => "b".into(),
         Ty::Bytes(k) => k.name().into(),
         Ty::Fsb(n) => format!("fsb{}", n),
+        Ty::Iv(k) => if *k == 2 { "ivdt" } else { "ivmdn" }.into(),
         Ty::Null => "null".into(),
         Ty::Struct(ks) => format!("S({})", list(ks)),
         Ty::List(k, e) => format!("{}({})", k.name(), show_ty(e)),
@@ -241,6 +247,7 @@ fn show_val(v: &Val) -> String {
         Val::Float(b) => b.to_string(),
         Val::Bool(b) => if *b { "1" } else { "0" }.into(),
         Val::Bytes(b) => format!("x{}", hx(b)),
+        Val::Ints(c) => c.iter().map(|x| x.to_string()).collect::<Vec<_>>().join("/"),
         Val::Struct(vs) => format!("({})", list(vs)),
         Val::List(vs) => format!("[{}]", list(vs)),
         Val::Union(i, v) => format!("u{}:{}", i, show_val(v)),
@@ -296,6 +303,8 @@ impl<'a> Parser<'a> {
             "utf8" => Ty::Bytes(BK::Utf8),
             "lutf8" => Ty::Bytes(BK::LUtf8),
             "utf8v" => Ty::Bytes(BK::Utf8V),
+            "ivdt" => Ty::Iv(2),
+            "ivmdn" => Ty::Iv(3),
             "f16" => Ty::Float(16),
             "f32" => Ty::Float(32),
             "f64" => Ty::Float(64),
@@ -430,6 +439,14 @@ impl<'a> Parser<'a> {
                     return Err(format!("int {} out of range", w));
                 }
                 Ok(Val::Int(v))
+            }
+            Ty::Iv(k) => {
+                let w = self.take_while(|c| c == b'-' || c == b'/' || c.is_ascii_digit());
+                let c: Vec<i64> = w.split('/').map(|x| x.parse::<i64>()).collect::<Result<_, _>>().map_err(|_| format!("bad interval {}", w))?;
+                if c.len() != *k as usize || c[0] != c[0] as i32 as i64 || c[1] != c[1] as i32 as i64 {
+                    return Err(format!("bad interval {}", w));
+                }
+                Ok(Val::Ints(c))
             }
             Ty::Float(b) => {
                 let w = self.take_while(|c| c.is_ascii_digit());
@@ -670,6 +687,8 @@ fn item_field(e: &Ty) -> Arc<Field> {
 fn dtype(t: &Ty) -> DataType {
     match t {
         Ty::Int { bits, signed, tag } => int_dtype(*bits, *signed, tag).expect("int type"),
+        Ty::Iv(2) => DataType::Interval(IntervalUnit::DayTime),
+        Ty::Iv(_) => DataType::Interval(IntervalUnit::MonthDayNano),
         Ty::Float(16) => DataType::Float16,
         Ty::Float(32) => DataType::Float32,
         Ty::Float(_) => DataType::Float64,
@@ -753,17 +772,20 @@ struct Gen {
     rng: Rng,
     pool: Vec<Vec<u8>>,
     lists: HashMap<String, Vec<Vec<Val>>>,
+    /// interval values drawn so far in this case (to share more significant components)
+    ivs: Vec<Vec<i64>>,
 }
 
 const LENS: [usize; 23] = [0, 1, 7, 8, 9, 15, 16, 17, 23, 24, 25, 31, 32, 33, 63, 64, 65, 95, 96, 97, 127, 128, 129];
 
 impl Gen {
     fn new(rng: Rng) -> Self {
-        Gen { rng, pool: vec![], lists: HashMap::new() }
+        Gen { rng, pool: vec![], lists: HashMap::new(), ivs: vec![] }
     }
     fn reset(&mut self) {
         self.pool.clear();
         self.lists.clear();
+        self.ivs.clear();
     }
 
     fn int(&mut self, bits: u32, signed: bool) -> i256 {
@@ -806,6 +828,41 @@ impl Gen {
             }
         };
         wrap_int(v, bits, signed)
+    }
+
+    /// interval components (k = 2: days, ms; k = 3: months, days, nanos).  Dense on the
+    /// interesting pairs: usually an earlier value of the case is taken, a prefix of its
+    /// components kept, and the less significant ones redrawn from a small set containing both
+    /// signs — so that every component decides the order with both signs while the more
+    /// significant components are equal.
+    fn interval(&mut self, k: u8) -> Vec<i64> {
+        let k = k as usize;
+        let comp = |r: &mut Rng, idx: usize| -> i64 {
+            let wide = k == 3 && idx == 2;
+            let (mn, mx) = if wide { (i64::MIN, i64::MAX) } else { (i32::MIN as i64, i32::MAX as i64) };
+            match r.below(12) {
+                0 => mn,
+                1 => mx,
+                2 | 3 => -1500,
+                4 | 5 => 2000,
+                6 => -1,
+                7 => 0,
+                8 => 1,
+                9 => if wide { -(1i64 << 32) } else { -65536 },
+                10 => if wide { 1i64 << 32 } else { 65536 },
+                _ => if wide { r.next_u64() as i64 } else { r.next_u64() as i32 as i64 },
+            }
+        };
+        let same: Vec<&Vec<i64>> = self.ivs.iter().filter(|c| c.len() == k).collect();
+        let v = if !same.is_empty() && self.rng.chance(3, 4) {
+            let base = same[self.rng.usize(same.len())].clone();
+            let keep = self.rng.usize(k + 1); // keep `keep` most significant components
+            (0..k).map(|i| if i < keep { base[i] } else { comp(&mut self.rng, i) }).collect()
+        } else {
+            (0..k).map(|i| comp(&mut self.rng, i)).collect::<Vec<i64>>()
+        };
+        self.ivs.push(v.clone());
+        v
     }
 
     fn float(&mut self, bits: u32) -> u64 {
@@ -1032,6 +1089,7 @@ impl Gen {
             Ty::Null => Val::Null,
             Ty::Int { bits, signed, .. } => Val::Int(self.int(*bits, *signed)),
             Ty::Float(b) => Val::Float(self.float(*b)),
+            Ty::Iv(k) => Val::Ints(self.interval(*k)),
             Ty::Bool => Val::Bool(self.rng.bool()),
             Ty::Bytes(k) => Val::Bytes(self.bytes(k.is_utf8(), depth)),
             Ty::Fsb(n) => Val::Bytes(self.fsb(*n)),
@@ -1404,6 +1462,28 @@ fn build_inner(ty: &Ty, vals: &[Val], lay: &mut Lay, nonnull: bool) -> ArrayRef 
             let d = ArrayData::builder(dtype(ty)).len(n).add_buffer(mb.into()).nulls(nulls).build().expect("primitive data");
             make_array(d)
         }
+        Ty::Iv(k) => {
+            let nulls = nulls_of(vals, lay);
+            let comps: Vec<Vec<i64>> = vals
+                .iter()
+                .map(|v| match v {
+                    Val::Ints(c) => c.clone(),
+                    Val::Null => {
+                        if lay.ch(1, 2) { lay.g.interval(*k) } else { vec![0; *k as usize] }
+                    }
+                    _ => panic!("value/type mismatch"),
+                })
+                .collect();
+            if *k == 2 {
+                let v: Vec<arrow_buffer::IntervalDayTime> =
+                    comps.iter().map(|c| arrow_buffer::IntervalDayTime::new(c[0] as i32, c[1] as i32)).collect();
+                Arc::new(PrimitiveArray::<IntervalDayTimeType>::new(ScalarBuffer::from(v), nulls))
+            } else {
+                let v: Vec<arrow_buffer::IntervalMonthDayNano> =
+                    comps.iter().map(|c| arrow_buffer::IntervalMonthDayNano::new(c[0] as i32, c[1] as i32, c[2])).collect();
+                Arc::new(PrimitiveArray::<IntervalMonthDayNanoType>::new(ScalarBuffer::from(v), nulls))
+            }
+        }
         Ty::Bool => {
             let nulls = nulls_of(vals, lay);
             let bits: Vec<bool> = vals
@@ -1685,6 +1765,14 @@ fn array_to_vals(arr: &dyn Array) -> Vec<Val> {
     }
     let opt = |i: usize, f: &dyn Fn(usize) -> Val| if arr.is_null(i) { Val::Null } else { f(i) };
     match &dt {
+        DataType::Interval(IntervalUnit::DayTime) => {
+            let a = arr.as_primitive::<IntervalDayTimeType>();
+            (0..n).map(|i| opt(i, &|i| { let x = a.value(i); Val::Ints(vec![x.days as i64, x.milliseconds as i64]) })).collect()
+        }
+        DataType::Interval(IntervalUnit::MonthDayNano) => {
+            let a = arr.as_primitive::<IntervalMonthDayNanoType>();
+            (0..n).map(|i| opt(i, &|i| { let x = a.value(i); Val::Ints(vec![x.months as i64, x.days as i64, x.nanoseconds]) })).collect()
+        }
         DataType::Null => vec![Val::Null; n],
         DataType::Boolean => {
             let a = arr.as_boolean();
@@ -1825,6 +1913,8 @@ fn cmp_val(ty: &Ty, desc: bool, nf: bool, a: &Val, b: &Val) -> Ordering {
         (Ty::Int { .. }, Val::Int(x), Val::Int(y)) => rev_if(x.cmp(y), desc),
         (Ty::Float(w), Val::Float(x), Val::Float(y)) => rev_if(float_key(*x, *w).cmp(&float_key(*y, *w)), desc),
         (Ty::Bool, Val::Bool(x), Val::Bool(y)) => rev_if(x.cmp(y), desc),
+        // component-wise lexicographic, every component signed
+        (Ty::Iv(_), Val::Ints(x), Val::Ints(y)) => rev_if(x.cmp(y), desc),
         (Ty::Bytes(_) | Ty::Fsb(_), Val::Bytes(x), Val::Bytes(y)) => rev_if(x.cmp(y), desc),
         (Ty::Struct(ks), Val::Struct(xs), Val::Struct(ys)) => lex(&|k| &ks[k], desc, nf, xs, ys),
         (Ty::List(_, e) | Ty::Fsl(_, e), Val::List(xs), Val::List(ys)) => lex(&|_| &**e, desc, nf, xs, ys),
@@ -2265,7 +2355,8 @@ fn gen_leaf(r: &mut Rng, for_key: bool) -> Ty {
             },
             35..=46 => Ty::Float(*r.pick(&[16u32, 32, 64])),
             47..=51 => Ty::Bool,
-            52..=84 => Ty::Bytes(*r.pick(&[BK::Bin, BK::LBin, BK::BinV, BK::Utf8, BK::LUtf8, BK::Utf8V])),
+            52..=77 => Ty::Bytes(*r.pick(&[BK::Bin, BK::LBin, BK::BinV, BK::Utf8, BK::LUtf8, BK::Utf8V])),
+            78..=84 => Ty::Iv(*r.pick(&[2u8, 3])),
             85..=95 => Ty::Fsb(*r.pick(&[0usize, 1, 2, 7, 8, 9, 16, 31, 32, 33])),
             _ => Ty::Null,
         };
